@@ -185,6 +185,23 @@ def relational(run, seed, models, nproblems):
             expect("RepeatColumnsAdjacent", lnl(name, tree, aln.take_positions(adj), params, mprobs), want=k * base)
             tip = rnd.choice(["a", "b", "c", "d", "e"])
             expect("SplitEdge", lnl(name, make_tree(to_newick(tree, split=(tip, rnd.uniform(0.2, 0.8))) + ";"), aln, params, mprobs))
+            # splits whose pieces are very unequal: one piece of 1e-9 / 1e-12 (still a positive length) on either side.
+            # A piece of exactly 0.0 is NOT used: cogent3 reads a zero length in a tree as "no length given"
+            # (tests/test_evolve/test_likelihood_function.py::test_lengths_as_ens_model_mix pins that), so it is no split.
+            tl = tree.get_node_matching_name(tip).length
+            for piece in (1e-9, 1e-12):
+                for fr in (piece / tl, 1.0 - piece / tl):
+                    if not (tl * fr > 0.0 and tl - tl * fr > 0.0):
+                        continue  # float rounding produced a zero piece: not a split (see above)
+                    expect("SplitEdge:tiny-piece", lnl(name, make_tree(to_newick(tree, split=(tip, fr)) + ";"), aln, params, mprobs))
+            if reversible:
+                # the root moved ONTO an edge (anywhere on the tree, not only to existing nodes): in the middle of it and
+                # a hair's breadth (1e-9, 1e-15) from its end
+                for tag, fr in (("interior", rnd.uniform(0.2, 0.8)), ("near-node", 1e-9 / tl), ("near-node", 1.0 - 1e-15 / tl)):
+                    if not (tl * fr > 0.0 and tl - tl * fr > 0.0):
+                        continue
+                    st = make_tree(to_newick(tree, split=(tip, fr)) + ";")
+                    expect(f"MoveRootOntoEdge:{tag}", lnl(name, st.rooted_at(f"{tip}_split"), aln, params, mprobs))
             roots = [e.name for e in tree.get_edge_vector(include_root=False) if not e.is_tip()]
             for r in roots:
                 val = lnl(name, tree.rooted_at(r), aln, params, mprobs)
